@@ -116,6 +116,44 @@ struct Dg {
 static void setLen(QByteArray &b, int body) { b[2] = char(body >> 8); b[3] = char(body & 0xff); }
 static void putAttrHeader(QByteArray &b, int type, int len) { b.append(char(type >> 8)); b.append(char(type & 0xff)); b.append(char(len >> 8)); b.append(char(len & 0xff)); }
 
+// ---- application payloads that look like STUN to a careless demultiplexer
+// independent statement of the RFC 5389 rule: a datagram is STUN iff ≥ 20 bytes, length field (bytes 2..3) = size − 20,
+// type (bytes 0..1) ≠ 0 and the magic cookie 0x2112A442 at offset 4
+static bool isStunByRule(const QByteArray &b)
+{
+    if (b.size() < 20) return false;
+    const auto *u = reinterpret_cast<const unsigned char *>(b.constData());
+    return ((u[2] << 8) | u[3]) == b.size() - 20 && ((u[0] << 8) | u[1]) != 0 && u[4] == 0x21 && u[5] == 0x12 && u[6] == 0xa4 && u[7] == 0x42;
+}
+// cookie-less look-alike: bytes 2..3 = size − 20 (what peekType() tests), chosen first two bytes, no cookie
+static QByteArray lookalike(int size, unsigned char b0, unsigned char b1, Rng &rng)
+{
+    QByteArray p(size, '\0');
+    for (auto &c : p) c = char(rng.below(256));
+    p[0] = char(b0); p[1] = char(b1); p[2] = char((size - 20) >> 8); p[3] = char((size - 20) & 0xff);
+    if ((unsigned char)p[4] == 0x21) p[4] = 0x22;     // certainly not the cookie
+    return p;
+}
+// RTP packet (version 2, payload type 0) of `size` bytes with this sequence number: bytes 2..3 carry the sequence number
+static QByteArray rtpPacket(int size, unsigned seq, Rng &rng)
+{
+    QByteArray p(size, '\0');
+    for (auto &c : p) c = char(rng.below(256));
+    p[0] = char(0x80); p[1] = 0; p[2] = char((seq >> 8) & 0xff); p[3] = char(seq & 0xff);
+    if ((unsigned char)p[4] == 0x21) p[4] = 0x22;
+    return p;
+}
+// carries the cookie but is NOT a STUN message by the rule: wrong length field, or type 0
+static QByteArray cookieButNotStun(int size, bool zeroType, Rng &rng)
+{
+    QByteArray p(size, '\0');
+    for (auto &c : p) c = char(rng.below(256));
+    p[4] = 0x21; p[5] = 0x12; p[6] = char(0xa4); p[7] = 0x42;
+    if (zeroType) { p[0] = 0; p[1] = 0; p[2] = char((size - 20) >> 8); p[3] = char((size - 20) & 0xff); }
+    else { p[0] = 0; p[1] = 1; const int wrong = size - 20 + 1 + int(rng.below(7)); p[2] = char(wrong >> 8); p[3] = char(wrong & 0xff); }
+    return p;
+}
+
 struct Creds { QString localUser, localPw, remoteUser, remotePw, oldRemotePw = QStringLiteral("never-was-the-remote-password"); };
 
 static QByteArray forge(const Dg &d, const Creds &c, const QList<QByteArray> &victimTx, const QHostAddress &vHost, quint16 vPort, Rng &rng,
@@ -509,7 +547,7 @@ struct Victim {
             if (reaction) oracleFail("C15:non-stun-datagram-has-effect", history);
             else if (closedNow) { if (ag.app.isEmpty()) oraclePass()++; else oracleFail("C15:closed-component-reacts", history); }
             else if (ag.app.size() == 1 && ag.app[0] == dg->payload) { oraclePass()++; if (!legit.count(dg->src)) stat("app_data_from_non_candidate_source_delivered"); }
-            else oracleFail("C15:application-datagram-altered", history);
+            else oracleFail(ag.app.isEmpty() ? "C15:application-datagram-not-delivered" : "C15:application-datagram-altered", history + " => " + observe(seen));
         }
         // ---- oracle: the priority of a selected pair is the RFC 5245 5.7.2 formula of the two candidate priorities
         for (const auto &s : ag.sel) {
@@ -747,13 +785,31 @@ static std::vector<Dg> reducedAlphabet(bool full)
     a.push_back(mk(8, "req", "loc", 7001, false, 'n', 5, 0, 'o'));
     a.push_back(appDg(8, QByteArray::fromHex("80c8000102030405")));
     a.push_back(appDg(1, QByteArray::fromHex("9001")));
+    // application payloads that pass peekType()'s size/length test but carry no cookie, and payloads with the cookie that fail the rule
+    {
+        Rng r2(4711);
+        for (int src : { 1, 8 }) {
+            for (int size : { 20, 24, 172 }) {
+                a.push_back(appDg(src, lookalike(size, 0x00, 0x01, r2)));       // "Binding request"-like first bytes
+                a.push_back(appDg(src, lookalike(size, 0x01, 0x01, r2)));       // "Binding response"-like
+                a.push_back(appDg(src, rtpPacket(size, unsigned(size - 20), r2)));
+            }
+            a.push_back(appDg(src, cookieButNotStun(28, false, r2)));
+            a.push_back(appDg(src, cookieButNotStun(20, true, r2)));
+        }
+    }
     return a;
 }
 
 static Dg randomDg(Rng &rng, int comp)
 {
     static const int srcs[] = { 1, 1, 2, 8, 8, 9 };
-    if (rng.below(12) == 0) {
+    if (rng.below(10) == 0) {
+        const unsigned k = rng.below(5);
+        const int size = 20 + int(rng.below(60));
+        if (k == 0) return appDg(srcs[rng.below(6)], lookalike(size, (unsigned char)rng.below(64), (unsigned char)(1 + rng.below(255)), rng));
+        if (k == 1) return appDg(srcs[rng.below(6)], rtpPacket(size, unsigned(size - 20), rng));
+        if (k == 2) return appDg(srcs[rng.below(6)], cookieButNotStun(size, rng.coin(), rng));
         QByteArray p(1 + rng.below(24), '\0');
         for (auto &c : p) c = char(rng.below(256));
         p[0] = char(0x80 | (unsigned char)p[0]);
@@ -1138,6 +1194,37 @@ static bool runPairOnce(const PairCase &pc, Rng &rng, int deadlineMs, bool final
             if (w == p.size() && to.app.size() == 1 && to.app[0] == p) { oraclePass()++; stat("payload_bytes_echoed", p.size()); }
             else if (!finalAttempt && w == p.size() && to.app.isEmpty()) timingMiss = true;   // nothing arrived in time: retried
             else oracleFail(pc.attack == 2 ? "C15:application-datagram-lost-under-no-mi-attack" : "C15:application-datagram-not-carried-unchanged", name + " size " + std::to_string(p.size()) + " delivered " + std::to_string(to.app.size()));
+        }
+        // structured payloads in both directions: everything that is NOT a STUN message by the RFC 5389 rule must arrive byte for byte
+        {
+            std::vector<QByteArray> battery;
+            static int pairNo = 0;
+            const bool full = pairNo++ < 3;
+            for (int size = 20; size <= 200; size += full ? 1 : 17) {
+                static const unsigned char firsts[][2] = { { 0x00, 0x01 }, { 0x01, 0x01 }, { 0x01, 0x11 }, { 0x00, 0x11 }, { 0x3f, 0xff }, { 0x00, 0x03 } };
+                const auto &f = firsts[rng.below(6)];
+                battery.push_back(lookalike(size, f[0], f[1], rng));
+            }
+            for (unsigned seq = 148; seq <= 156; seq++) battery.push_back(rtpPacket(172, seq, rng));        // G.711 stream across sequence number 152
+            for (unsigned seq : { 65534u, 65535u, 0u, 1u }) battery.push_back(rtpPacket(20, seq, rng));        // header-only packets across sequence number 0
+            for (unsigned seq = 10; seq <= 14; seq++) battery.push_back(rtpPacket(32, seq, rng));
+            for (int k = 0; k < 4; k++) { battery.push_back(cookieButNotStun(20 + int(rng.below(100)), false, rng)); battery.push_back(cookieButNotStun(20 + int(rng.below(100)), true, rng)); }
+            int misses = 0;
+            for (size_t k = 0; k < battery.size() && misses < 3 && !timingMiss; k++)
+                for (int dir = 0; dir < 2; dir++) {
+                    const QByteArray &p = battery[k];
+                    if (isStunByRule(p)) { stat("battery_payload_is_stun_by_rule"); continue; }
+                    Agent &from = dir ? B : A, &to = dir ? A : B;
+                    to.app.clear();
+                    const qint64 w = from.comp->sendDatagram(p);
+                    QElapsedTimer e2; e2.start();
+                    while (to.app.isEmpty() && e2.elapsed() < (finalAttempt ? 5000 : 1500)) { pump(1); if (to.app.isEmpty()) QThread::usleep(50); }
+                    stat("battery_payloads");
+                    if (w == p.size() && to.app.size() == 1 && to.app[0] == p) oraclePass()++;
+                    else if (!finalAttempt && w == p.size() && to.app.isEmpty()) { timingMiss = true; break; }   // judged on the immediate retry
+                    else { misses++; oracleFail(to.app.isEmpty() ? "C15:application-datagram-not-delivered" : "C15:application-datagram-not-carried-unchanged",
+                                    name + (dir ? " B->A " : " A->B ") + std::to_string(p.size()) + " bytes " + p.left(24).toHex().constData() + (p.size() > 24 ? "..." : "")); }
+                }
         }
         // a payload that is itself a well-formed STUN message is demultiplexed as STUN (RFC 5245 / 7983 by design): recorded only
         QXmppStunMessage sm; sm.setType(QXmppStunMessage::Binding | QXmppStunMessage::Indication); sm.setId(fakeTxid(77));
